@@ -1172,9 +1172,18 @@ class Repo:
                     return ast.copy_location(ast.Constant(not node.operand.value), node)
                 return node
 
-        def inline_value_helpers(rel, F):
+        def inline_value_helpers(rel, F, module_level=(), methods=()):
             helpers = {}
-            for g in F.body:
+            meths = {}
+            for g in [x for x in methods if x is not F]:
+                if not g.decorator_list and not (g.args.vararg or g.args.kwarg or g.args.posonlyargs) and g.args.args \
+                        and g.args.args[0].arg == "self" and tail_returns_only(g.body) and mcount.get(g.name) == 1 \
+                        and g.name.startswith("_") and not g.name.startswith("__") \
+                        and not any(isinstance(x, (ast.Yield, ast.YieldFrom, ast.Lambda, ast.Global, ast.While, ast.For, ast.Try, ast.With,
+                                                   ast.FunctionDef)) and x is not g for x in ast.walk(g)) \
+                        and not any(isinstance(x, ast.Attribute) and x.attr == g.name for x in ast.walk(g)):
+                    meths[g.name] = g
+            for g in list(F.body) + [x for x in module_level if x is not F]:
                 if isinstance(g, ast.FunctionDef) and not g.decorator_list and not (g.args.vararg or g.args.kwarg or g.args.posonlyargs) \
                         and tail_returns_only(g.body) \
                         and not any(isinstance(x, (ast.Yield, ast.YieldFrom, ast.Lambda, ast.Global, ast.While, ast.For, ast.Try, ast.With))
@@ -1182,12 +1191,14 @@ class Repo:
                                     or (isinstance(x, ast.Call) and isinstance(x.func, ast.Name) and x.func.id == g.name)
                                     for x in ast.walk(g)):
                     helpers[g.name] = g
-            if not helpers:
+            if not helpers and not meths:
                 return
 
             def bind_call(g, call):
-                params = [a.arg for a in g.args.args] + [a.arg for a in g.args.kwonlyargs]
-                npos = len(g.args.args)
+                is_m = g.name in meths and meths[g.name] is g
+                pos_params = [a.arg for a in g.args.args][1 if is_m else 0:]
+                params = pos_params + [a.arg for a in g.args.kwonlyargs]
+                npos = len(pos_params)
                 env = {}
                 if len(call.args) > npos or any(isinstance(a, ast.Starred) for a in call.args):
                     return None
@@ -1197,7 +1208,7 @@ class Repo:
                     if k.arg is None or k.arg not in params or k.arg in env:
                         return None
                     env[k.arg] = k.value
-                defaults = dict(zip([a.arg for a in g.args.args][npos - len(g.args.defaults):], g.args.defaults))
+                defaults = dict(zip(pos_params[npos - len(g.args.defaults):], g.args.defaults)) if g.args.defaults else {}
                 defaults.update({a.arg: d for a, d in zip(g.args.kwonlyargs, g.args.kw_defaults) if d is not None})
                 for p_ in params:
                     if p_ not in env:
@@ -1257,6 +1268,13 @@ class Repo:
                             repo.inlined_helpers.append((rel, F.name, call.func.id))
                             out.extend(new)
                             continue
+                    if call is not None and isinstance(call.func, ast.Attribute) and isinstance(call.func.value, ast.Name) \
+                            and call.func.value.id == "self" and call.func.attr in meths:
+                        new = expand(meths[call.func.attr], call, mk, s_)
+                        if new is not None:
+                            repo.inlined_helpers.append((rel, F.name, call.func.attr))
+                            out.extend(new)
+                            continue
                     for fld in ("body", "orelse", "finalbody"):
                         if hasattr(s_, fld) and isinstance(getattr(s_, fld), list):
                             setattr(s_, fld, rewrite(getattr(s_, fld)))
@@ -1269,9 +1287,26 @@ class Repo:
                 if not used:
                     F.body = [b for b in F.body if b is not g]
 
+        def small_module_helpers(m):
+            """module-level functions short enough to be read in place: at most six statements, a value returned in tail
+            position, a name used for nothing else in the package"""
+            out = []
+            for g in m.tree.body:
+                if isinstance(g, ast.FunctionDef) and names.get(g.name) == 1 and not g.decorator_list \
+                        and sum(1 for x in ast.walk(g) if isinstance(x, ast.stmt)) - 1 <= 8:
+                    out.append(g)
+            return out
+
         for rel, m in self.modules.items():
             if rel.startswith("hrevolve_sequences/"):
                 continue
+            mods = small_module_helpers(m)
+            for c_ in m.tree.body:
+                if isinstance(c_, ast.ClassDef):
+                    for n in c_.body:
+                        if isinstance(n, ast.FunctionDef) and any(isinstance(x, (ast.Yield, ast.YieldFrom)) for x in ast.walk(n)):
+                            # generators may use small module-level helpers and action-returning methods of the class
+                            inline_value_helpers(rel, n, mods, [x for x in c_.body if isinstance(x, ast.FunctionDef)])
             for n in ast.walk(m.tree):
                 if isinstance(n, ast.FunctionDef):
                     inline_value_helpers(rel, n)
